@@ -635,6 +635,13 @@ def d19_class(case, built):
     return False
 
 
+def d74_class(case, built):
+    """Class predicate of D74, from the generator's description: the table being expanded has a required setup line inside an
+    `if` block that does not apply for this flavor, and its product is not set up."""
+    top = build_table(case, *case["top"])
+    return any(l["k"] == "setup" and not l["optional"] and l["name"] not in built for l in L.inactive_setup_lines(top))
+
+
 def complete_env(case, built):
     """Premise of the exact-reproduction clause, from the generator's description: the build-time environment holds
     everything the top table asks for -- following every setup line that is not --external and whose product is set
@@ -652,9 +659,10 @@ def complete_env(case, built):
         # what this table takes away again (unsetupRequired / unsetupOptional) may be missing for it and for everything it
         # set up before -- not for a product reached on another path, which then lacks a dependency
         exempt = exempt | {l["name"] for l in lines if l["k"] == "unsetup"}
+        inactive = L.inactive_setup_lines(lines)
         for l in lines:
             fl = l.get("flags") or []
-            if l["k"] != "setup" or "--external" in fl:
+            if l["k"] != "setup" or "--external" in fl or any(l is x for x in inactive):
                 continue
             q = l["name"]
             if q not in built and q in exempt:
@@ -697,7 +705,7 @@ def oracle_case(case, res):
     cf = case["stream"] == "cf" and complete_env(case, built)
     if "out" not in main:
         if cf and main.get("err") and not main.get("skip"):
-            cls = "D19" if d19_class(case, built) else None
+            cls = "D19" if d19_class(case, built) else ("D74" if d74_class(case, built) and main.get("err") == "NotSetup" else None)
             yield ("expansion_succeeds", cls, "conflict-free build with every required dependency set up, yet the "
                    "expansion raised %s (%s)" % (main.get("err"), main.get("errmsg")), 0)
         return
